@@ -244,7 +244,7 @@ func checkC18(w *World, r *Report) {
 			}
 			for _, l := range rangeLoops(bb) {
 				if l.Over == dists && dists != nil {
-					okLoop = loopBodyMustPass(l, func(b *ssa.BasicBlock) bool {
+					okLoop = loopEarlyExit(l) == nil && loopBodyMustPass(l, func(b *ssa.BasicBlock) bool {
 						for _, in := range b.Instrs {
 							if c, ok := in.(*ssa.Call); ok && strings.HasSuffix(callName(c.Common()), "EventManager.EmitTypedEvent") {
 								return true
